@@ -774,7 +774,10 @@ class DAGRunConcurrentManager(DAGRunManagerLike):
                 dag=dag,
             )
 
-            if isinstance(result, Recurrent):
+            # Only the request that executed the node starts the subgraph. A duplicate request merely reads the marker
+            # that is stored for the node: its runner would find the subgraph active and give up - or, if it gets its
+            # turn after the subgraph has finished (exhausted), run all the iterations once more.
+            if isinstance(result, Recurrent) and not is_duplicate_request:
                 self._create_task(
                     name=f'rec-{node_id}',
                     coro=self._run_recurrent_subgraph(
@@ -783,6 +786,8 @@ class DAGRunConcurrentManager(DAGRunManagerLike):
                         dag=dag,
                     ),
                 )
+
+            if isinstance(result, Recurrent):
 
                 # We shouldn't unlock the node's descendants if we have to perform recurrent subgraph.
                 # It has to be this way because the node, which has `Recurrent` result,
